@@ -441,8 +441,12 @@ func pmApply(s *pState, op string) (bool, *core.Fail) {
 	}
 	// registers other than the receiver must be bit-identical
 	for i := range s.P {
-		if i != r && alpha.PointRaw(&s.P[i]) != rawBefore[i] {
-			return false, core.Failf("%s modified register %d which is not its receiver", op, i)
+		if i != r && s.Init[i] && alpha.PointRaw(&s.P[i]) != rawBefore[i] {
+			// a representation-only rewrite of an operand is C11's/C18's
+			// business; here the operand must still be the same valid point
+			if f := pmCheckReg(&s.P[i], s.M[i]); f != nil {
+				return false, core.Failf("%s changed register %d, which is not its receiver, into a different value: %s", op, i, f.Msg)
+			}
 		}
 	}
 	if expectErr {
@@ -450,7 +454,31 @@ func pmApply(s *pState, op string) (bool, *core.Fail) {
 			return false, core.Failf("%s: invalid input accepted (ret=%v err=%v)", op, ret != nil, err)
 		}
 		if alpha.PointRaw(recv) != rawBefore[r] {
-			return false, core.Failf("%s: receiver modified although an error was returned", op)
+			// atomicity of failed setters is C14's business; for this
+			// machine the receiver must still be the valid point it was
+			if s.Init[r] {
+				if f := pmCheckReg(recv, s.M[r]); f != nil {
+					return false, core.Failf("%s returned an error and left the receiver as an invalid or different point: %s", op, f.Msg)
+				}
+			} else {
+				// previously uninitialised: it now holds whatever the failed
+				// setter wrote; later reads must still panic or see a valid point
+				ok := func() (ok bool) {
+					defer func() {
+						if recover() != nil {
+							ok = true
+						}
+					}()
+					recv.Bytes()
+					return false
+				}()
+				if !ok {
+					X, Y, Z, T := recv.ExtendedCoordinates()
+					if !ref.ExtendedValid(ref.FromLE(X.Bytes()), ref.FromLE(Y.Bytes()), ref.FromLE(Z.Bytes()), ref.FromLE(T.Bytes())) {
+						return false, core.Failf("%s returned an error but turned an uninitialised receiver into an invalid point that no longer panics", op)
+					}
+				}
+			}
 		}
 		return false, nil // no state change: no successor
 	}
